@@ -173,3 +173,11 @@ def functions_of(tree: ast.Module) -> dict[str, ast.FunctionDef]:
         if isinstance(node, (ast.FunctionDef, ast.AsyncFunctionDef)) and not is_overload(node):
             out[q] = node
     return out
+
+
+def add_virtual(sm: SourceModel, name: str, text: str) -> ModuleSrc:
+    """Register a synthetic module (positive controls): parsed from text, never written to /repo."""
+    m = ModuleSrc(name, Path(f"<control {name}>"), False)
+    m._text = text
+    sm.modules[name] = m
+    return m
